@@ -223,7 +223,7 @@ def hom_pairs(rng, quick):
 def paillier_cases(rng, tier):
     quick = tier == "quick"
     cases = []
-    for key in (["512:c0610", "1024:c0611"] if quick else ["512:c0610", "1024:c0611", "768:c0612", "256:c0613"]):
+    for key in (["512:c0610", "384:c0611"] if quick else ["512:c0610", "384:c0611", "256:c0613", "128:c0614"]):
         for a, b in hom_pairs(rng, quick):
             cases.append("phpe %s %s %s %s" % (key, seed(rng), a, b))
     # Damgaard-Jurik: n^(s+1) must fit twice into the configured precision (BN_PRECI = 1024 bits)
@@ -231,7 +231,7 @@ def paillier_cases(rng, tier):
         for s in ss:
             for a, b in hom_pairs(rng, quick):
                 cases.append("ghpe %s %s %d %s %s" % (key, seed(rng), s, a, b))
-    for key in (["128:512:c0630"] if quick else ["128:512:c0630", "160:1024:c0631", "64:256:c0632"]):
+    for key in (["128:512:c0630"] if quick else ["128:512:c0630", "64:256:c0632", "96:384:c0633"]):
         for a, b in hom_pairs(rng, quick):
             cases.append("shpe %s %s %s %s" % (key, seed(rng), a, b))
     return cases
